@@ -124,3 +124,11 @@ package measurement
 //@   loop 6
 //@     mustcall Scale ratio: $arg0 == 1 && $arg1 == st.Unit when sampleType[i] != nil
 //@     invariant ones: forall k int :: 0 <= k && k < $i && sampleType[k] == nil ==> same(ratios[k], 1.0)
+
+// ---- C15: Label / ScaledLabel — a label is produced by converting exactly the given value from the given unit (to "auto"
+// for Label) and appending the unit the conversion chose; a label is "0" only for the texts 0 and -0 ----
+//@ func Label arith bv nosafety
+//@   callsite ScaledLabel auto: $arg0 == value && $arg1 == unit && $arg2 == "auto"
+//@ func ScaledLabel arith bv nosafety floatabs=yes
+//@   callsite Scale args: $arg0 == value && $arg1 == fromUnit && $arg2 == toUnit
+//@   mustcall Scale scaled: true when true
